@@ -194,14 +194,14 @@ impl Schedule {
 
         costs -= tour.costs();
 
-        if let Ok(dummy_tour) = Tour::new_dummy(
+        for dummy_tour in Tour::new_dummies(
             tour.sub_path(Segment::new(tour.first_node(), tour.last_node()))?,
             self.network.clone(),
         ) {
             self.add_dummy_tour(
                 &mut dummy_tours,
                 &mut dummy_ids_sorted,
-                VehicleIdx::dummy_from(self.vehicle_counter as Idx),
+                VehicleIdx::dummy_from(vehicle_counter as Idx),
                 dummy_tour,
             );
             vehicle_counter += 1;
@@ -391,11 +391,11 @@ impl Schedule {
 
                 self.update_depot_usage(&mut depot_usage, &vehicles, &tours, vehicle_idx);
 
-                if let Ok(new_dummy_tour) = Tour::new_dummy(removed_path, self.network.clone()) {
+                for new_dummy_tour in Tour::new_dummies(removed_path, self.network.clone()) {
                     self.add_dummy_tour(
                         &mut dummy_tours,
                         &mut dummy_ids_sorted,
-                        VehicleIdx::dummy_from(self.vehicle_counter as Idx),
+                        VehicleIdx::dummy_from(vehicle_counter as Idx),
                         new_dummy_tour,
                     );
                     vehicle_counter += 1;
@@ -585,11 +585,11 @@ impl Schedule {
                 )?;
             }
 
-            if let Ok(new_dummy_tour) = Tour::new_dummy(new_path, self.network.clone()) {
-                // removed nodes contain service trips, so add a dummy tour
+            for new_dummy_tour in Tour::new_dummies(new_path, self.network.clone()) {
+                // removed nodes contain service trips, so add a dummy tour (the first one is returned)
 
                 let new_dummy = VehicleIdx::dummy_from(vehicle_counter as Idx);
-                new_dummy_opt = Some(new_dummy);
+                new_dummy_opt = new_dummy_opt.or(Some(new_dummy));
                 vehicle_counter += 1;
 
                 self.add_dummy_tour(
